@@ -53,6 +53,8 @@ def run(ctx):
     res.assumptions += ["the inductive step from P1-P3 to mapping(I) == reduced[I] is a paper argument over these facts",
                         "positions ascending; removed rows cover consecutive retained pairs"]
     res.not_decided += ["mapping(I) == reduced[I] as a behavioural equality on concrete reductions"]
+    from .common import hidden_state as _hidden_state
+    _hidden_state(rc, "P6", ['rdp.mapping', 'rdp.compute_removed_points'], "index mapping")
     res.require_instances("C07 obligations", len(res.obligations), 9)
 
 
